@@ -450,6 +450,47 @@ def run_special_case(case, res):
             res.violation('absolute_searched_locations', '%r: absolute name searched the locations: %s' % (desc, e), desc)
           else:
             res.w('absolute_bypasses')
+    elif kind in ('package_found_after_path_extended', 'package_moved_on_path'):
+      # the Python path changes between two resolutions of one package-relative name (in one process): each resolution
+      # sees the path as it is then
+      pk = 'c14pkg_%s' % kind
+      for root, tag in (('rootA', 'A'), ('rootB', 'B')):
+        d = os.path.join(base, root, pk)          # (a top-level package: resolving the name does not import it)
+        os.makedirs(d)
+        open(os.path.join(d, '__init__.py'), 'w').close()
+        with open(os.path.join(d, 'a.gin'), 'w') as fh:
+          fh.write("c14.f.x = 'pkg%s'\ninclude '%s/b.gin'\n" % (tag, pk))
+        with open(os.path.join(d, 'b.gin'), 'w') as fh:
+          fh.write("c14.f.y = 'pkg%s_b'\n" % tag)
+      name = '%s/a.gin' % pk
+      if kind == 'package_found_after_path_extended':
+        try:
+          gin.parse_config_file(name)
+          first = 'ok'
+        except IOError:
+          first = 'IOError'
+        sys.path.insert(0, os.path.join(base, 'rootA'))
+        want = ('pkgA', 'pkgA_b')
+      else:
+        sys.path.insert(0, os.path.join(base, 'rootA'))
+        gin.parse_config_file(name)
+        first = 'ok' if F()[:2] == ('pkgA', 'pkgA_b') else repr(F())
+        sys.path.remove(os.path.join(base, 'rootA'))
+        sys.path.insert(0, os.path.join(base, 'rootB'))
+        gin.clear_config()
+        want = ('pkgB', 'pkgB_b')
+      import importlib  # pylint: disable=import-outside-toplevel
+      importlib.invalidate_caches()
+      try:
+        gin.parse_config_file(name)
+        got = F()[:2]
+      except Exception as e:  # pylint: disable=broad-except
+        got = 'raised %r' % (e,)
+      if first != ('IOError' if kind == 'package_found_after_path_extended' else 'ok') or got != want:
+        res.violation('package_relative_wrong', '%r: first resolution %s; after the Python path changed: %r, expected %r' %
+                      (desc, first, got, want), desc)
+      else:
+        res.w('package_relative_follows_python_path')
     elif kind in ('package_regular', 'package_nested'):
       pk = 'c14pkg_%s' % kind
       d = os.path.join(base, pk, 'configs')
@@ -673,7 +714,8 @@ def run_special_case(case, res):
       del sys.modules[k]
 
 
-SPECIALS = ['absolute_present', 'absolute_missing', 'package_regular', 'package_nested', 'namespace_location_missing',
+SPECIALS = ['absolute_present', 'absolute_missing', 'package_regular', 'package_nested',
+            'package_found_after_path_extended', 'package_moved_on_path', 'namespace_location_missing',
             'namespace_location_later', 'namespace_location_present', 'namespace_two_portions_first',
             'namespace_two_portions_second', 'namespace_two_portions_include', 'earlier_copy_missing_include',
             'earlier_reader_missing_include', 'module_as_directory', 'builtin_module_as_directory',
